@@ -20,7 +20,7 @@ ID = "C09"
 LEVEL = "exploration"
 TECHNIQUE = "generated models, call partitions and per-step settings (Hypothesis); differential across batch / session / REST channels and vs Euler reference with a settings schedule"
 RULE = ("cases = (stock/flow model with graphical function, run spec, requested equations [subset, order], partition of the run into "
-        "run-step / run-steps k / stream-steps calls, per-call settings in {none, {}, constants, points}, flat or nested results, sessions over two scenarios with settings addressed to one, starts -8..2.5 incl. stop <= 0); "
+        "run-step / run-steps k / stream-steps calls, per-call settings in {none, {}, constants, points}, flat or nested results, sessions over two scenarios with settings addressed to one (equal stop times, or the sibling stopping later), starts -8..2.5 incl. stop <= 0); "
         "channels: run_scenarios df/dict/json, REST run again with runspecs dt/2 and back (after the memo is full), Python session + session_results (by time / by equation / flat), REST run, run-step, "
         "run-steps, stream-steps, session-results, flat-session-results. non-trivial = the partition has >= 2 calls of different kinds "
         "or a setting at a step k >= 1, and dt != 1 or start != 1; distinct by case")
@@ -207,7 +207,9 @@ def _check_case(case):
         k0 = abstract["constants"][0]["name"]
         other_consts = {k0: 4.0}
         try:
-            ref_other = SM.RefModel(abstract, constants=other_consts, limit=1e9).run()
+            # a sibling that stops later has its own stoptime(); only the first n+1 grid points are reported
+            abs_other = dict(abstract, n=n + 2) if case.get("sibling_stop") == "longer" else abstract
+            ref_other = SM.RefModel(abs_other, constants=other_consts, limit=1e9).run()
         except E.Fragile:
             ref_other = None
         if ref_other is not None:
@@ -216,7 +218,12 @@ def _check_case(case):
             b = bptk()
             try:
                 b.register_scenario_manager({sm: {"model": model}})
-                scen = [("other", {"constants": dict(other_consts)}), (sc, {})]
+                other_def = {"constants": dict(other_consts)}
+                if case.get("sibling_stop") == "longer":
+                    # the sibling runs longer: the session ends at the earlier stop time (the addressed scenario's own grid)
+                    from decimal import Decimal
+                    other_def["runspecs"] = {"stoptime": float(Decimal(abstract["start"]) + (n + 2) * Decimal(abstract["dt"]))}
+                scen = [("other", other_def), (sc, {})]
                 if case["sibling"] == "after":
                     scen.reverse()
                 b.register_scenarios(dict(scen), sm)
@@ -415,6 +422,10 @@ def case_strategy():
             model["dt_spec"] = draw(st.sampled_from([{"dt": "1"}, {"dt": "0.5"}, {"dt": "0.25"}, {"dt": "0.1"}, {"dt": "0.2"}]))
             model["start"] = draw(st.sampled_from(["0", "1", "2.5", "1", "-2", "-1", "-8", "-3"]))
             model["n"] = draw(st.integers(2, 8))
+            if draw(st.integers(0, 5)) == 0:
+                # a run that stops at exactly 0 (a stop time that is falsy)
+                from decimal import Decimal
+                model["start"] = str((-(model["n"] * Decimal(model["dt_spec"]["dt"]))).normalize() + 0)
             consts = [c["name"] for c in model["constants"]]
             gfs = [a["name"] for a in model["aux"] if a["kind"] == "gf"]
 
@@ -441,7 +452,8 @@ def case_strategy():
                 calls.append(["stream", settings()])
         eqs = draw(st.lists(st.integers(0, 20), min_size=1, max_size=5))
         return {"model": model, "model_kind": model_kind, "calls": calls, "eqs": eqs, "flat": draw(st.booleans()),
-                "sibling": draw(st.sampled_from([None, "before", "after"]))}
+                "sibling": draw(st.sampled_from([None, "before", "after"])),
+                "sibling_stop": draw(st.sampled_from([None, "longer"]))}
     return build()
 
 
@@ -457,7 +469,8 @@ def _body(ctx):
         nt = (len(kinds) >= 2 or any(k >= 1 for k, _ in sched)) and (a_["dt"] != "1" or a_["start"] != "1")
         labels = ["call:" + k for k in sorted(kinds)] + (["with-settings"] if sched else ["no-settings"]) + \
             (["two-scenario-session"] if case.get("sibling") else []) + \
-            (["stop<=0"] if float(a_["start"]) + a_["n"] * float(a_["dt"]) <= 0 else []) + (["start<0"] if float(a_["start"]) < 0 else [])
+            (["two-scenario-session:different-stop"] if case.get("sibling") and case.get("sibling_stop") else []) + \
+            (["stop==0"] if float(a_["start"]) + a_["n"] * float(a_["dt"]) == 0 else []) + (["stop<=0"] if float(a_["start"]) + a_["n"] * float(a_["dt"]) <= 0 else []) + (["start<0"] if float(a_["start"]) < 0 else [])
         ctx.case({"calls": case["calls"], "eqs": case["eqs"], "flat": case["flat"], "model": SM.sym_show(_abstract(case))},
                  nontrivial=nt, labels=labels, key=case)
         ctx.report(vs)
